@@ -1,3 +1,4 @@
+pub mod c03;
 pub mod c05;
 pub mod c06;
 pub mod c14;
